@@ -392,7 +392,7 @@ def describe(r):
 # ----------------------------------------------------------------------------------------------
 
 def run(ctx):
-    C.prepare(ctx, ['C06', 'C06_l3'])
+    C.prepare(ctx, ['C06', 'C06_l3', 'C06_mvp70'])
     rng = ctx.rng
     quick = ctx.tier == 'quick'
     ok_or, out_or = C.ensure_oracle(ctx, 'msi', ['theories/Msi/Invariant.vo', 'theories/Msi/L3Invariant.vo'], ['Msi'])
